@@ -70,4 +70,68 @@ def Table.run (max probes : Nat) (t : Table) : List Op → Table × List Out
     let (t2, os) := Table.run max probes t1 ops
     (t2, o :: os)
 
+
+/-! ## The client's association tables with their lazy expiry
+
+`client.dnsreqs` (id → deadline) and `client.udp_by_src` (source → (id, deadline)); every accept
+handler ends with `expire_connections(now, mux)` (client.py:479-499), which drops the entries whose
+deadline lies strictly before `now` together with their `mux.channels` registration.  A datagram
+from a source that already has an association refreshes its deadline *before* that sweep
+(client.py:553-568). -/
+
+structure Timed where
+  t : Table := {}
+  now : Nat := 0
+  dl : List (Nat × Nat) := []      -- (id, deadline) of the DNS requests and UDP associations held
+deriving Repr
+
+/-- `expire_connections(now, mux)`. -/
+def Timed.expire (s : Timed) (now : Nat) : Timed :=
+  let gone := (s.dl.filter (fun e => decide (e.2 < now))).map (·.1)
+  { s with dl := s.dl.filter (fun e => !decide (e.2 < now)),
+           t := { s.t with live := s.t.live.filter (fun e => !gone.contains e.1) } }
+
+inductive TOp
+  | base (o : Op)          -- `close c` = maybe_close of a TCP flow, or the id's association forced out
+  | tick (d : Nat)         -- the clock advances
+  | again (c : Nat)        -- a datagram from the source whose UDP association has id c
+deriving Repr
+
+inductive TOut
+  | base (o : Out)
+  | ticked
+  | sent (c : Nat)         -- UDP_DATA queued on id c
+  | nosuch
+deriving Repr, DecidableEq
+
+def Timed.step (max probes : Nat) (s : Timed) : TOp → Timed × TOut
+  | .tick d => ({ s with now := s.now + d }, .ticked)
+  | .base (.open k) =>
+    match s.t.step max probes (.open k) with
+    | (t1, .opened c f) =>
+      let s1 : Timed := { s with t := t1, dl := if k = .tcp then s.dl else s.dl ++ [(c, s.now + 30)] }
+      (s1.expire s.now, .base (.opened c f))
+    | (t1, o) => ({ s with t := t1 }, .base o)         -- no id: the handler returns before the sweep
+  | .base (.close c) =>
+    ({ s with t := (s.t.step max probes (.close c)).1, dl := s.dl.filter (·.1 != c) }, .base .closed)
+  | .base (.frame c) =>
+    match s.t.step max probes (.frame c) with
+    | (t1, .delivered .dns f) => ({ s with t := t1, dl := s.dl.filter (·.1 != c) }, .base (.delivered .dns f))
+    | (t1, o) => ({ s with t := t1 }, .base o)
+  | .again c =>
+    match s.t.live.find? (·.1 == c) with
+    | some (_, .udp, _) =>
+      if s.dl.any (·.1 == c) then
+        let s1 : Timed := { s with dl := s.dl.map fun e => if e.1 == c then (c, s.now + 30) else e }
+        (s1.expire s.now, .sent c)
+      else (s, .nosuch)
+    | _ => (s, .nosuch)
+
+def Timed.run (max probes : Nat) (s : Timed) : List TOp → Timed × List TOut
+  | [] => (s, [])
+  | op :: ops =>
+    let (s1, o) := s.step max probes op
+    let (s2, os) := Timed.run max probes s1 ops
+    (s2, o :: os)
+
 end Sshuttle.Alloc
